@@ -18,6 +18,7 @@ B3  (primary) on paths of meshTopologyExampleV2 and the Sweden OpenROADM network
 import concurrent.futures as cf
 import inspect
 import json
+import math
 import random
 import textwrap
 
@@ -36,8 +37,8 @@ WITNESSES = ['WitnessManyUpdates', 'WitnessReverseBlocks', 'WitnessUnjudgedPick'
 
 TIER = {
     # b2: (# two-mode libraries sampled, # three-mode libraries sampled, paths); b3: scenarios per pair, pairs
-    'quick': dict(b2_two=260, b2_three=420, b2_paths=1, b3_per_pair=26, b3_pairs='quick'),
-    'thorough': dict(b2_two=1176, b2_three=6000, b2_paths=2, b3_per_pair=70, b3_pairs='thorough'),
+    'quick': dict(b2_two=260, b2_three=420, b2_paths=1, b3_per_pair=24, b3_pairs='quick'),
+    'thorough': dict(b2_two=1176, b2_three=5000, b2_paths=3, b3_per_pair=70, b3_pairs='thorough'),
 }
 
 
@@ -76,12 +77,16 @@ def finish_b1(chk, jobs):
 CD_WIDE = [(2000, 0.1), (8000, 0.6), (30000, 1.5), (70000, 4.0)]
 
 
-def b2_mode_json(f, k, worst, margin, cd_short):
-    """model mode [b, r, f, d] -> equipment JSON; worst: measured pristine worst channel of the physical mode"""
+CD_NEGLOW = [(-20000, 0.5), (0, 0.0), (30000, 1.5), (70000, 4.0)]      # explicit negative lower boundary
+
+
+def b2_mode_json(f, k, worst, margin, tabs):
+    """model mode [b, r, f, d] -> equipment JSON; worst: measured pristine worst channel of the physical mode;
+    tabs = (CD table holding the path's CD, CD table the path's CD lies outside of)"""
     baud = (32e9, 64e9)[f['b']]
     inf_pen = f['d'] == 9
     d = 3 if inf_pen else f['d']                  # without its penalty the mode would be 3 dB above the threshold
-    pens = penalties_json(cd=cd_short if inf_pen else CD_WIDE)
+    pens = penalties_json(cd=tabs[1] if inf_pen else tabs[0])
     min_spacing = (37.5e9, 75e9)[f['b']] if f['f'] else 100e9
     return base_mode(f'm{k}', baud, 100e9 * (f['r'] + 1), min_spacing, osnr=worst - d - margin, tx_osnr=40.0,
                      penalties=pens)
@@ -98,32 +103,42 @@ def run_b2(chk, emitted, benches):
     cases = list(by_len[1])
     cases += rng.sample(by_len[2], min(cfg['b2_two'], len(by_len[2])))
     cases += rng.sample(by_len[3], min(cfg['b2_three'], len(by_len[3])))
-    spots = [('mesh', 'trx Lannion_CAS', 'trx Lorient_KMA'), ('swe5', 'trx_Gothenburg', 'trx_Karlstad')][:cfg['b2_paths']]
+    # "outside the table" is concretised above the upper end on positive-CD paths and below the lower end on the
+    # over-compensated line (residual CD negative: the loader's 0 boundary lies above it)
+    spots = [('mesh', 'trx Lannion_CAS', 'trx Lorient_KMA'), ('line', 'trx B', 'trx C'),
+             ('swe5', 'trx_Gothenburg', 'trx_Karlstad')]
     spacing = 75e9
     n = 0
-    for bname, src, dst in spots:
+    for spot_i, (bname, src, dst) in enumerate(spots):
         bench = benches[bname]
         margin = bench.default_margin
-        # measurement phase: the four physical modes (2 baud rates x {wide table, CD table ending below the path})
+        # measurement phase: the four physical modes (2 baud rates x {table holding the path CD, table not holding it})
         probe = bench.pristine(src, dst, 0, spacing, base_mode('p', 32e9, 100e9, 37.5e9))
-        cd_lo = float(np.min(probe['cd']))
-        cd_short = [(int(cd_lo * 0.3), 0.2), (int(cd_lo * 0.7), 0.5)]
+        cd_lo, cd_hi = float(np.min(probe['cd'])), float(np.max(probe['cd']))
+        if cd_hi < -10:
+            tabs = (CD_NEGLOW, CD_WIDE)
+            if not (CD_NEGLOW[0][0] < cd_lo):
+                raise Machinery('B2: negative-CD path outside the prepared table')
+        elif cd_lo > 10:
+            tabs = (CD_WIDE, [(int(cd_lo * 0.3), 0.2), (int(cd_lo * 0.7), 0.5)])
+        else:
+            raise Machinery('B2: path CD too close to zero to place tables')
         worst = {}
         for b in (0, 1):
             for inf_pen in (False, True):
-                mj = b2_mode_json(dict(b=b, r=0, f=1, d=9 if inf_pen else 0), 0, 0.0, 0.0, cd_short)
+                mj = b2_mode_json(dict(b=b, r=0, f=1, d=9 if inf_pen else 0), 0, 0.0, 0.0, tabs)
                 ev = bench.pristine(src, dst, 0, spacing, mj)
-                if inf_pen and not cd_short[-1][0] < cd_lo:
-                    raise Machinery('B2: the short CD table does not end below the path CD')
                 # an infinite penalty: place the threshold with respect to the GSNR alone
                 worst[(b, inf_pen)] = float(np.min(ev['rx'])) if inf_pen else fu.worst_db(ev)
         for ci, e in enumerate(cases):
+            if cfg['b2_paths'] == 1 and ci % 3 != spot_i:        # quick: the sampled libraries are dealt over the spots
+                continue
             for order in ((0,) if ci % 5 else (0, 1)):            # every fifth library also in reversed file order
                 idx = list(range(len(e['lib'])))
                 if order:
                     idx.reverse()
                 modes = [b2_mode_json(e['lib'][i], i + 1, worst[(e['lib'][i]['b'], e['lib'][i]['d'] == 9)], margin,
-                                      cd_short) for i in idx]
+                                      tabs) for i in idx]
                 pos = {i + 1: k + 1 for k, i in enumerate(idx)}   # model index -> position in the file
                 eq = bench.equipment(modes, None)
                 kinds = [None]
@@ -175,7 +190,8 @@ B3_PAIRS = {
     'quick': [('mesh', 'trx Lannion_CAS', 'trx Lorient_KMA'), ('mesh', 'trx Brest_KLA', 'trx Vannes_KBE'),
               ('mesh33', 'trx Rennes_STA', 'trx Brest_KLA'),
               ('swe5', 'trx_Gothenburg', 'trx_Karlstad'), ('swe5', 'trx_Borås', 'trx_Umeå'),
-              ('swe4', 'trx_Stockholm', 'trx_Malmö')],
+              ('swe4', 'trx_Stockholm', 'trx_Malmö'),
+              ('line', 'trx A', 'trx B'), ('line', 'trx B', 'trx C'), ('line', 'trx C', 'trx A')],
     'thorough': None,       # filled in b3_pairs()
 }
 
@@ -184,7 +200,7 @@ def b3_pairs(tier, benches, rng):
     if tier == 'quick':
         return B3_PAIRS['quick']
     out = list(B3_PAIRS['quick'])
-    for b in ('mesh', 'mesh33', 'meshdet', 'swe5', 'swe4'):
+    for b in ('mesh', 'mesh33', 'meshdet', 'swe5', 'swe4', 'line'):
         uids = benches[b].trx_uids()
         pairs = [(s, d) for s in uids for d in uids if s != d]
         for s, d in rng.sample(pairs, min(len(pairs), 7 if b.startswith('mesh') else 9)):
@@ -193,10 +209,31 @@ def b3_pairs(tier, benches, rng):
     return out
 
 
-def physical_library(kind, spacing, cd_lo, rng):
+def measured_tables(meas):
+    """CD tables placed around the MEASURED per-channel CD of the two directions (meas = dict(f=(min, max), r=(min, max))
+    in ps/nm): a steep one (penalty varies by 2 dB over the channels), ones whose upper / lower end lies INSIDE the
+    channel spread of the reverse direction, ones whose lower boundary lies below / above the path's CD."""
+    lo, hi = int(math.floor(min(meas['f'][0], meas['r'][0]))), int(math.ceil(max(meas['f'][1], meas['r'][1])))
+    rlo, rhi = meas['r']
+    t = {}
+    t['steep'] = [(lo - 2000, 0.0), (lo, 0.2), (max(hi + 1, lo + 400), 2.2), (hi + 30000, 3.2)]
+    end_hi = int(rlo + 0.6 * (rhi - rlo))                  # upper end inside the reverse spread
+    t['partial_hi'] = [(end_hi - 3000, 0.1), (end_hi - 1500, 0.3), (end_hi, 0.5)]
+    end_lo = int(rlo + 0.4 * (rhi - rlo))                  # lower end inside the reverse spread
+    t['partial_lo'] = [(end_lo, 0.3), (end_lo + 2500, 0.0), (end_lo + 30000, 1.0)]
+    t['low_in'] = [(lo - 5000, 0.4), (lo + 40000, 1.0)]    # lower boundary below the path: finite penalty
+    t['low_out'] = [(hi + 500, 0.2), (hi + 30000, 1.0)]    # lower boundary above the path (unless the loader adds 0)
+    return t
+
+
+def physical_library(kind, spacing, meas, rng):
     """modes without thresholds.  Equalisation offset is a function of the baud rate (domain restriction)."""
     wide = lambda cd='wide': penalties_json(cd=CD_TABS[cd], pmd=PMD_TAB, pdl=PDL_TAB)   # noqa
-    short = penalties_json(cd=[(max(1, int(cd_lo * 0.3)), 0.2), (max(2, int(cd_lo * 0.7)), 0.5)], pmd=PMD_TAB)
+    cd_lo = meas['f'][0]
+    short = penalties_json(cd=[(max(1, int(cd_lo * 0.3)), 0.2), (max(2, int(cd_lo * 0.7)), 0.5)] if cd_lo > 10
+                           else [(1000, 0.2), (2000, 0.5)], pmd=PMD_TAB)
+    mt = measured_tables(meas)
+    only = lambda name: penalties_json(cd=mt[name], pmd=PMD_TAB)       # noqa
     hi = 75e9 if spacing >= 75e9 else 87.5e9          # min_spacing of the 64 GBd modes (fits at 75 GHz only)
     off = {'offset': (3.0, 0.0), 'offset2': (2.0, -1.0)}.get(kind, (0.0, 0.0))
     if kind == 'groups3':
@@ -211,6 +248,18 @@ def physical_library(kind, spacing, cd_lo, rng):
     if kind == 'cdshort':
         lib[0]['penalties'] = short
         lib[2]['penalties'] = short
+    if kind == 'cdsteep':         # channel-dependent finite penalty: the worst channel is not the lowest-GSNR channel
+        for k in (0, 1, 2):
+            lib[k]['penalties'] = only('steep')
+    if kind == 'cdpartial':       # only SOME channels of the reverse direction leave the table
+        lib[0]['penalties'] = only('partial_hi')
+        lib[1]['penalties'] = only('partial_lo')
+        lib[2]['penalties'] = only('partial_hi')
+        lib[3]['penalties'] = only('partial_lo')
+    if kind == 'cdlow':           # the lower end of the table: loader-inserted 0, explicit boundary below / above the path
+        lib[0]['penalties'] = penalties_json(cd=CD_WIDE)
+        lib[1]['penalties'] = only('low_in')
+        lib[2]['penalties'] = only('low_out')
     if kind == 'ties':            # two modes with the same (baud rate, bit rate)
         lib.insert(2, base_mode('64G-300b', 64e9, 300e9, hi, tx_osnr=40.0, offset=off[0], penalties=wide('flat')))
     if kind == 'nofit':           # the 64 GBd modes do not fit whatever the spacing; with 25 GHz spacing nothing fits
@@ -223,7 +272,9 @@ def physical_library(kind, spacing, cd_lo, rng):
 
 def place_thresholds(bench, src, dst, spacing, lib, deltas, margin, reference):
     """OSNR of every fitting mode := (measured pristine worst channel) - delta - margin.  `reference` chooses the
-    direction(s) measured: 'fwd', 'rev' (straddle the reverse metric) or 'between' (forward passes, reverse fails)."""
+    direction(s) measured: 'fwd', 'rev' (straddle the reverse metric), 'between' (forward passes, reverse fails when
+    the directions differ) or 'fwdpass' (like 'between', and forward passes by 0.3 dB when they do not differ or the
+    reverse worst channel is outside a table)."""
     out = []
     for m, d in zip(lib, deltas):
         m = dict(m)
@@ -239,6 +290,10 @@ def place_thresholds(bench, src, dst, spacing, lib, deltas, margin, reference):
                         w = wr
                     elif abs(wf - wr) > 0.03:
                         w, d = (wf + wr) / 2, 0.0
+                    elif reference == 'fwdpass':
+                        d = 0.3
+                elif reference == 'fwdpass' and np.isfinite(wf):
+                    d = 0.3
             m['OSNR'] = round(w - d - margin, 4)
         else:
             m['OSNR'] = 15.0
@@ -304,6 +359,14 @@ def _interp_int(tab, v):
     return ys[k] + (ys[k + 1] - ys[k]) * (v - xs[k]) // (xs[k + 1] - xs[k])
 
 
+def _band_dev(tab, v, obs):
+    """distance of the observed penalty from the band [interp(v-1), interp(v), interp(v+1)] (None: not judged)"""
+    ps = [_interp_int(tab, v + d) for d in (-1, 0, 1)]
+    if any(p is None for p in ps) or obs >= fu.INF:
+        return None
+    return max(0, min(ps) - obs, obs - max(ps))
+
+
 def deviations(tr, raw, acc):
     """measured deviations on the recorded figures (reported next to the tolerances; not a verdict)"""
     for e in tr['ev']:
@@ -315,9 +378,9 @@ def deviations(tr, raw, acc):
         acc['max_nup'] = max(acc['max_nup'], e['nup'])
         for short in ('cd', 'pmd', 'pdl'):
             for v, obs in zip(e[short], e['p' + short]):
-                p = _interp_int(m[short], v)
-                if p is not None and obs < fu.INF:
-                    acc['penalty'] = max(acc['penalty'], abs(p - obs))
+                dev = _band_dev(m[short], v, obs)
+                if dev is not None:
+                    acc['penalty'] = max(acc['penalty'], dev)
     worst = 0.0
     for k, d, ev in raw['loop']:
         p = raw['pristine'].get((k, d))
@@ -331,15 +394,21 @@ def build_b3(chk, benches):
     rng = random.Random(chk.seed)
     traces, meta = [], {}
     acc = dict(composition=0, penalty=0, max_nup=0)
-    kinds = ['plain', 'offset', 'cdshort', 'ties', 'groups3', 'nofit', 'shuffled', 'offset2']
+    kinds = ['plain', 'offset', 'cdshort', 'ties', 'groups3', 'nofit', 'shuffled', 'offset2', 'cdsteep', 'cdpartial',
+             'cdlow']
+    # plans taken first on every pair: the table-end / per-channel kinds in each request shape (None: drawn at random)
+    plans = [(k, None, None, None) for k in kinds]
+    plans += [(k, fx, True, ref) for k in ('cdpartial', 'cdsteep', 'cdlow') for fx, ref in ((False, 'fwdpass'), (True, 'fwdpass'))]
+    plans += [('cdsteep', False, True, 'rev'), ('cdlow', True, False, 'fwd'), ('cdpartial', False, False, 'fwd')]
     for pi, (bname, src, dst) in enumerate(b3_pairs(chk.tier, benches, rng)):
         bench = benches[bname]
-        probe = bench.pristine(src, dst, 0, 75e9, base_mode('p', 32e9, 100e9, 37.5e9))
-        cd_lo = float(np.min(probe['cd']))
+        probe = {d: bench.pristine(src, dst, d, 75e9, base_mode('p', 32e9, 100e9, 37.5e9))['cd'] for d in (0, 1)}
+        meas = dict(f=(float(np.min(probe[0])), float(np.max(probe[0]))),
+                    r=(float(np.min(probe[1])), float(np.max(probe[1]))))
         for si in range(cfg['b3_per_pair']):
-            kind = kinds[si % len(kinds)] if si < 2 * len(kinds) else rng.choice(kinds)
+            kind, p_fixed, p_bidir, p_ref = plans[si] if si < len(plans) else (rng.choice(kinds), None, None, None)
             spacing = 75e9 if kind != 'nofit' else rng.choice([75e9, 50e9, 25e9])
-            lib = physical_library(kind, spacing, cd_lo, rng)
+            lib = physical_library(kind, spacing, meas, rng)
             n = len(lib)
             pattern = si % 7
             if pattern == 0:
@@ -356,13 +425,19 @@ def build_b3(chk, benches):
             rk = rng.random()
             fixed = rng.choice(fitting) if (fitting and rk < 0.4) else 0
             bidir = rng.random() < 0.45
-            reference = rng.choice(['fwd', 'rev', 'between']) if bidir else 'fwd'
+            reference = rng.choice(['fwd', 'rev', 'between', 'fwdpass']) if bidir else 'fwd'
+            if p_bidir is not None:
+                fixed = (rng.choice(fitting) if p_fixed and fitting else 0)
+                bidir, reference = p_bidir, p_ref
+                if pattern in (0, 2):
+                    deltas = [rng.choice(DELTAS) for _ in range(n)]
             modes = place_thresholds(bench, src, dst, spacing, lib, deltas, sys_margin, reference)
             name = f't{pi}-{si}'
             tr, raw, exc = scenario_trace(bench, name, src, dst, spacing, modes, fixed, bidir, margin)
             hist_dev = deviations(tr, raw, acc)
             traces.append(tr)
-            meta[name] = dict(history_deviation_db=round(hist_dev, 6), bench=bname, src=src, dst=dst, kind=kind, spacing=spacing, fixed=fixed, bidir=bidir,
+            meta[name] = dict(history_deviation_db=round(hist_dev, 6), bench=bname, src=src, dst=dst, kind=kind,
+                              spacing=spacing, fixed=fixed, bidir=bidir, reference=reference, measured_cd=meas,
                               deltas_db=deltas, sys_margins=sys_margin, exception=exc, outcome=tr['out'],
                               offsets=sorted({(m['baud_rate'], m.get('equalization_offset_db', 0)) for m in lib}),
                               modes=[dict(format=m['format'], OSNR=m['OSNR'], min_spacing=m['min_spacing'],
@@ -437,6 +512,13 @@ def make_benches(tier):
          'mesh33': Bench('mesh33', 'eqpt_config.json', 'meshTopologyExampleV2.json', add_drop_osnr=33.0),
          'swe5': Bench('swe5', 'eqpt_config_openroadm_ver5.json', 'Sweden_OpenROADMv5_example_network.json'),
          'swe4': Bench('swe4', 'eqpt_config_openroadm_ver4.json', 'Sweden_OpenROADMv4_example_network.json')}
+    slope = {'dispersion_slope': 58}               # s/m^3: the accumulated CD depends on the channel
+    neg = dict(type_variety='C13-NEG', dispersion=-3.0e-05, effective_area=5.0e-11, pmd_coef=1.265e-15)
+    # A-B: same fibre both ways but longer from B to A; B-C: over-compensated both ways (negative residual CD)
+    topo = fu.line_topology(['A', 'B', 'C'], [
+        ([(80, 'SSMF', slope)] * 3, [(86, 'SSMF', slope)] * 3),
+        ([(80, 'SSMF', slope), (80, 'C13-NEG', slope)], [(85, 'SSMF', slope), (90, 'C13-NEG', slope)])])
+    b['line'] = Bench('line', 'eqpt_config.json', topo, add_drop_osnr=36.0, extra_fibers=[neg])
     if tier == 'thorough':
         b['meshdet'] = Bench('meshdet', 'eqpt_config.json', 'meshTopologyExampleV2.json',
                              detailed_sites=('roadm Lannion_CAS', 'roadm Brest_KLA', 'roadm Vannes_KBE'))
